@@ -1029,13 +1029,13 @@ func (x *Exec) checkEnsures(st *State, i *ssa.Return, res []SymVal) {
 	if rs.Len() >= 1 {
 		env.binds["result"] = Bound{V: res[0], T: rs.At(0).Type()}
 	}
+	x.Cover(st, fmt.Sprintf("return@b%d", i.Block().Index), i.Pos())
 	for k, c := range x.fc.Ensures {
 		o := x.oblig(x.clauseName("ensures", k, c), "ensures", c.Tags, i.Pos())
 		o.PosStr = shortPath(c.File) + fmt.Sprintf(":%d", c.Line)
 		o.Src = c.Text
 		x.Assert(st, o, x.evalBool(env, c))
 	}
-	x.Cover(st, fmt.Sprintf("return@b%d", i.Block().Index), i.Pos())
 }
 
 var _ = token.NoPos
